@@ -79,6 +79,8 @@ enum B {
     Box(CBox<'static, Pay>),
     Opaque(CBox<'static, gvoid>),
     ZBox(CBox<'static, ZPay>),
+    /// non-empty slice of zero-sized elements with destructors: occupies no memory, owns n values
+    ZSlice(CSliceBox<'static, ZPay>, i32),
     Slice(CSliceBox<'static, Pay>),
     OpaqueSlice(CSliceBox<'static, gvoid>),
 }
@@ -111,7 +113,7 @@ fn apply(st: &mut State, step: &Step, counts: &mut Vec<&'static str>) -> Result<
             if st.slots[s].is_some() {
                 return Ok("BNew noop".into());
             }
-            let kind = step.arg(1).rem_euclid(8);
+            let kind = step.arg(1).rem_euclid(9);
             let slot = match kind {
                 0 => {
                     let (p, id) = fresh(st);
@@ -146,6 +148,13 @@ fn apply(st: &mut State, step: &Step, counts: &mut Vec<&'static str>) -> Result<
                     Z_LIVE.fetch_add(1, Ordering::SeqCst);
                     st.z_expected += 1;
                     Slot { b: B::ZBox(track(|| CBox::from(ZPay))), ids: vec![], foreign: false }
+                }
+                8 => {
+                    let n = step.arg(2).rem_euclid(4) as i32 + 1;
+                    Z_LIVE.fetch_add(n, Ordering::SeqCst);
+                    st.z_expected += n;
+                    let v: Vec<ZPay> = (0..n).map(|_| ZPay).collect();
+                    Slot { b: B::ZSlice(track(|| CSliceBox::from(v.into_boxed_slice())), n), ids: vec![], foreign: false }
                 }
                 _ => {
                     let len = step.arg(2).clamp(0, 5) as usize;
@@ -185,6 +194,10 @@ fn apply(st: &mut State, step: &Step, counts: &mut Vec<&'static str>) -> Result<
                         vec![(*(v.instance as *const Pay)).id]
                     }
                     B::ZBox(_) => vec![],
+                    B::ZSlice(b, n) => {
+                        vcheck!(b.len() == *n as usize, "box.deref_wrong_value", "zslice", "slice of {} zero-sized elements reads back with length {}", n, b.len());
+                        vec![]
+                    }
                     B::Plain(b) => {
                         vcheck!(b[1] == 0x1122_3344 && b[2] == !0u64, "box.deref_wrong_value", "plain", "plain payload corrupted");
                         vec![]
@@ -265,6 +278,9 @@ fn apply(st: &mut State, step: &Step, counts: &mut Vec<&'static str>) -> Result<
             if matches!(slot.b, B::ZBox(_)) {
                 st.z_expected -= 1;
             }
+            if let B::ZSlice(_, n) = &slot.b {
+                st.z_expected -= *n;
+            }
             if party == 1 {
                 counts.push("party.c");
                 unsafe {
@@ -277,6 +293,12 @@ fn apply(st: &mut State, step: &Step, counts: &mut Vec<&'static str>) -> Result<
                             let mut v: SliceBoxView<Pay> = cview::view(x);
                             if let Some(f) = v.drop_fn {
                                 track(|| f(&mut v.instance as *mut SliceView<Pay>));
+                            }
+                        }
+                        B::ZSlice(x, _) => {
+                            let mut v: SliceBoxView<ZPay> = cview::view(x);
+                            if let Some(f) = v.drop_fn {
+                                track(|| f(&mut v.instance as *mut SliceView<ZPay>));
                             }
                         }
                         B::OpaqueSlice(x) => {
@@ -417,7 +439,7 @@ fn state_hash(st: &State) -> u64 {
         match s {
             None => h.u64(0xff),
             Some(s) => {
-                h.u64(match s.b { B::Box(_) => 1, B::Opaque(_) => 2, B::ZBox(_) => 3, B::Slice(_) => 4, B::OpaqueSlice(_) => 5, B::Plain(_) => 6 });
+                h.u64(match s.b { B::Box(_) => 1, B::Opaque(_) => 2, B::ZBox(_) => 3, B::Slice(_) => 4, B::OpaqueSlice(_) => 5, B::Plain(_) => 6, B::ZSlice(..) => 7 });
                 h.u64(s.ids.len() as u64);
                 h.u64(s.foreign as u64);
             }
@@ -453,7 +475,7 @@ impl Engine for CBoxEngine {
             let s0 = rng.below(pool as u64) as i64;
             let party = if c_party && rng.chance(1, 3) { 1 } else { 0 };
             match op {
-                "BNew" => p.push(t, op, &[s0, rng.range(0, 7), rng.range(0, 4)]),
+                "BNew" => p.push(t, op, &[s0, rng.range(0, 8), rng.range(0, 4)]),
                 "BRead" | "BDrop" => p.push(t, op, &[s0, party]),
                 "BWrite" => p.push(t, op, &[s0, rng.range(0, 4)]),
                 "Tags" => p.push(t, op, &[*rng.pick(&[0, 1, -1, i32::MAX as i64, i32::MIN as i64, 77]), rng.range(0, 6)]),
@@ -518,6 +540,9 @@ impl Engine for CBoxEngine {
             if let Some(slot) = s.take() {
                 if matches!(slot.b, B::ZBox(_)) {
                     st.z_expected -= 1;
+                }
+                if let B::ZSlice(_, n) = &slot.b {
+                    st.z_expected -= *n;
                 }
                 track(|| drop(slot.b));
             }
